@@ -28,7 +28,7 @@ Definition safe (r : dres) : bool := match r with DDefault | DUnsecure => true |
 Definition judge (c : case) : verdict :=
   match c with
   | CRead c key blob lt mt rs calls truth =>
-      let '(r, cl) := decode (t_loads lt) (t_mac mt) c key (SBytes blob) in
+      let '(r, cl) := decode (t_loads lt) (t_mac mt) default_cdec c key (SBytes blob) in
       (forallb (dres_eqb r) rs && list_eqb String.eqb cl calls,
        forallb (verified_b truth c key blob) calls &&
        (if existsb (fun p => verified_b truth c key blob p)
@@ -37,4 +37,4 @@ Definition judge (c : case) : verdict :=
        [])
   end.
 Definition explain (c : case) :=
-  match c with CRead c key blob lt mt _ _ _ => decode (t_loads lt) (t_mac mt) c key (SBytes blob) end.
+  match c with CRead c key blob lt mt _ _ _ => decode (t_loads lt) (t_mac mt) default_cdec c key (SBytes blob) end.
